@@ -11,13 +11,16 @@ Definition pads2 : list nat := [0; 512].
 Definition pads5 : list nat := [0; 1; 255; 511; 512].
 Definition bools : list bool := [false; true].
 
-(* the one cell of the table where the faithful model raises internal_error *)
-Definition crash_cell (incoming : bool) (p : policy) (o : offer) : bool :=
+(* Since /repo 3196365 an outgoing MSE attempt under (prefer, require) is not retried in plaintext
+   (the retry policy DENY/REQUIRE is invalid), so a plain-only remote is not reached although an
+   incoming plain handshake is accepted under the same policy: the one cell where the code's own
+   reading of the policy ("stream mode governs MSE streams only") says compatible and the dial fails. *)
+Definition noretry_cell (incoming : bool) (p : policy) (o : offer) : bool :=
   negb incoming && mode_eqb (hs_mode p) Prefer && mode_eqb (st_mode p) Require && match o with OPlain => true | _ => false end.
 
 Definition table_row (strict : bool) (p : policy) : bool :=
   forallb (fun incoming => forallb (fun o =>
-    crash_cell incoming p o ||
+    noretry_cell incoming p o ||
     forallb (fun pa => forallb (fun pb => forallb (fun ia =>
       spec_ok strict incoming p o (negotiate incoming p o pa pb ia 0)) bools) pads2) pads2) all_offers) bools.
 
@@ -27,7 +30,7 @@ Proof. vm_compute. reflexivity. Qed.
 Lemma negotiation_table :
   forall incoming p o pa pb ia,
     In p all_policies -> In o all_offers -> In pa pads2 -> In pb pads2 ->
-    crash_cell incoming p o = false ->
+    noretry_cell incoming p o = false ->
     spec_ok false incoming p o (negotiate incoming p o pa pb ia 0) = true.
 Proof.
   intros incoming p o pa pb ia Hp Ho Hpa Hpb Hc.
@@ -46,15 +49,13 @@ Example negotiation_table_nonvacuous :
   negotiate true (mkPolicy Prefer Prefer false Allow) (OMse 3) 512 512 true 0 = NSucc true 2 1 true 5.
 Proof. vm_compute. repeat split; auto 20. Qed.
 
-(* the faithful model (and the code) raise internal_error in the excluded cell *)
-Lemma retry_internal_error_refuted :
-  exists p o, In p all_policies /\ In o all_offers /\ compatible false p o = true /\
-              negotiate false p o 0 0 false 0 = NCrash.
-Proof. exists (mkPolicy Prefer Require false Allow), OPlain. vm_compute. repeat split; auto 20. Qed.
+Lemma noretry_cell_fails_cleanly :
+  forall pa pb, In pa pads2 -> In pb pads2 -> negotiate false (mkPolicy Prefer Require false Allow) OPlain pa pb false 0 = NFail 1.
+Proof. intros pa pb Ha Hb. simpl in Ha, Hb. destruct Ha as [<-|[<-|[]]]; destruct Hb as [<-|[<-|[]]]; vm_compute; reflexivity. Qed.
 
 (* strict reading (stream policy also governs plain handshakes): false of the faithful model *)
 Lemma strict_stream_policy_refuted :
-  exists incoming p o, In p all_policies /\ In o all_offers /\ crash_cell incoming p o = false /\
+  exists incoming p o, In p all_policies /\ In o all_offers /\
     spec_ok true incoming p o (negotiate incoming p o 0 0 false 0) = false /\
     negotiate incoming p o 0 0 false 0 = NSucc false 1 1 true 5 /\ allow_plain_stream p = false.
 Proof. exists true, (mkPolicy Allow Require false Allow), OPlain. vm_compute. repeat split; auto 20. Qed.
@@ -115,7 +116,7 @@ Definition closed_attempt (p : policy) (fp : nat) : out :=
   end.
 
 Definition first_is_mse (p : policy) : bool := prefer_enc_hs p.
-Definition retry_flag (p : policy) : bool := if first_is_mse p then allow_plain_hs p else allow_enc_hs p.
+Definition retry_flag (p : policy) : bool := if first_is_mse p then allow_plain_hs p && allow_plain_stream p else allow_enc_hs p.
 
 Definition retry_cell (p : policy) (fp : nat) : bool :=
   match closed_attempt p fp with
@@ -129,7 +130,7 @@ Definition retry_cell (p : policy) (fp : nat) : bool :=
                           | Failed s2 _ _ => match retry_policy false (pol s2) with RNone => true | _ => false end
                           | _ => false end) [0; 1]
     | RNone => negb (retry_flag p && (fp =? 0))
-    | RThrow => mode_eqb (hs_mode p) Prefer && mode_eqb (st_mode p) Require && (fp =? 0)
+    | RThrow => false
     end
   | _ => false
   end.
